@@ -301,7 +301,13 @@ def valid_inputs(case):
             if run_validator(t, stix_version="2.1"):
                 return False
         except Exception:  # noqa
-            return False
+            # the third-party inspector itself failed (it does, with AttributeError, on the negative list indices its own grammar
+            # admits): no verdict -- the third-party grammar alone decides
+            try:
+                from stix2patterns.v21.pattern import Pattern
+                Pattern(t)
+            except Exception:  # noqa
+                return False
     return True
 
 
@@ -359,7 +365,7 @@ def run(ctx):
     ctx.assumptions = ["oracle/patsem.py implements the reading of the patterning semantics stated in its docstring (self-tested; every documented law "
                        "is cross-checked to hold in it on each generated rewrite pair)",
                        "soundness is relative to the bounded universe (<= 3 observations, pool constants)",
-                       "inputs are approved by the third-party stix2-patterns validator"]
+                       "inputs are approved by the third-party stix2-patterns validator (where its inspector itself fails -- negative list indices -- by its grammar alone)"]
     seen = {"n": 0, "rejected": 0}
 
     def body(case):
